@@ -75,10 +75,14 @@
 #include <ber_tlv_length.h>
 #include <xer_encoder.h>
 #include <xer_decoder.h>
+#ifndef ASN_DISABLE_PER_SUPPORT
 #include <per_encoder.h>
 #include <per_decoder.h>
+#endif
+#ifndef ASN_DISABLE_OER_SUPPORT
 #include <oer_encoder.h>
 #include <oer_decoder.h>
+#endif
 
 #define NOINSTR __attribute__((no_instrument_function))
 
@@ -130,6 +134,7 @@ static NOINSTR void lhex(log_t *l, const uint8_t *b, size_t n) {
 typedef struct { uint8_t *p; size_t n, cap; } buf_t;
 static NOINSTR int cb_buf(const void *b, size_t n, void *k) {
     buf_t *o = k;
+    if(o->n + n > (1u << 22)) return -1;   /* safety net: an encoder that never stops (BIT_STRING_encode_oer padding loop, C07) */
     if(o->n + n + 1 > o->cap) { o->cap = (o->cap + n + 1) * 2; o->p = realloc(o->p, o->cap); if(!o->p) abort(); }
     memcpy(o->p + o->n, b, n);
     o->n += n;
@@ -236,15 +241,16 @@ static const struct { enum asn_transfer_syntax enc, dec; const char *name; int p
 };
 #define NSYN (sizeof(SYN) / sizeof(SYN[0]))
 
-static NOINSTR void use_value(struct ctx *c, const asn_TYPE_descriptor_t *td, const void *st, const char *tag) {
+static NOINSTR int use_value(struct ctx *c, const asn_TYPE_descriptor_t *td, const void *st, const char *tag) {
     char errbuf[160];
     size_t errlen = sizeof errbuf;
-    int rc, nfail = 0;
+    int rc, nfail = 0, valid;
     char *mem = 0; size_t memlen = 0;
     FILE *f;
     lstr(&c->log, " ["); lstr(&c->log, tag);
     OP(c, "asn_check_constraints");
     rc = asn_check_constraints(td, st, errbuf, &errlen);
+    valid = (rc == 0);
     lnum(&c->log, "chk", rc);
     if(rc) { lstr(&c->log, " err="); lput(&c->log, errbuf, errlen); }
     OP(c, "check_constraints(cb)");
@@ -265,6 +271,7 @@ static NOINSTR void use_value(struct ctx *c, const asn_TYPE_descriptor_t *td, co
         lnum(&c->log, "tag", (long)asn_TYPE_outmost_tag(td, st, 0, 0));
     }
     lstr(&c->log, "]");
+    return valid;
 }
 
 /* helper functions that apply to values of a particular built-in representation */
@@ -396,7 +403,7 @@ static NOINSTR void one_round(struct ctx *c, int ti) {
     asn_TYPE_descriptor_t *td = TY[ti];
     log_t *L = &c->log;
     void *st = 0, *st2 = 0;
-    int rc;
+    int rc, valid;
     size_t s, k;
     asn_enc_rval_t er;
     asn_dec_rval_t rv;
@@ -422,7 +429,7 @@ static NOINSTR void one_round(struct ctx *c, int ti) {
         if(rc != 0) st = 0;
     }
     if(!st) { lstr(L, " novalue\n"); return; }
-    use_value(c, td, st, "v");
+    valid = use_value(c, td, st, "v");
     OP(c, "compare_struct(self)");
     lnum(L, "self", td->op->compare_struct(td, st, st));
     /* compare with NULL is left out: BIT_STRING_compare dereferences a NULL operand in the unchanged library */
@@ -433,6 +440,9 @@ static NOINSTR void one_round(struct ctx *c, int ti) {
         asn_encode_to_new_buffer_result_t nb;
         if(SYN[s].per && HAS_NOPER[ti]) continue;
         if(SYN[s].oer && HAS_NOOER[ti]) continue;
+        /* a value that fails its own constraint check is not OER-encoded: BIT_STRING_encode_oer never
+         * terminates on a fixed-size BIT STRING value that is too short (unchanged library; C07's area) */
+        if(SYN[s].oer && !valid) continue;
         lstr(L, " {"); lstr(L, SYN[s].name);
         OP(c, "asn_encode");
         er = asn_encode(0, SYN[s].enc, td, st, cb_buf, &out);
@@ -448,9 +458,8 @@ static NOINSTR void one_round(struct ctx *c, int ti) {
         free(nb.buffer);
         if(SYN[s].dec != ATS_INVALID && out.n < 100000) {
             decode_and_use(c, td, s, out.p, out.n, st, "rt");
-            /* invalid / damaged inputs (not for types holding an open type: the failure clean-up of
-             * OPEN_TYPE_*_get crashes in the unchanged library, finding C18-opentype-null-specifics) */
-            if(HAS_OPEN[ti]) { free(out.p); lstr(L, "}"); continue; }
+            /* invalid / damaged inputs (types holding an open type included since /repo commit 1c56988 fixed the
+             * failure clean-up of OPEN_TYPE_*_get, finding C18-opentype-null-specifics) */
             if(out.n > 0) {
                 uint8_t *m = malloc(out.n + 8);
                 size_t cut = rbelow((unsigned)out.n);
@@ -496,7 +505,7 @@ static NOINSTR void one_round(struct ctx *c, int ti) {
         OP(c, "free(reset)");
         if(st2) { ASN_STRUCT_RESET(*td, st2); OP(c, "free"); ASN_STRUCT_FREE(*td, st2); }
         /* restartable decode, one byte at a time at first */
-        if(out.n > 1 && out.n < 400 && !HAS_OPEN[ti]) {
+        if(out.n > 1 && out.n < 400) {
             size_t off = 0, step = 1; int guard = 0;
             st2 = 0;
             OP(c, "ber_decode(chunked)");
@@ -517,7 +526,7 @@ static NOINSTR void one_round(struct ctx *c, int ti) {
         st2 = 0; rv = xer_decode(0, td, &st2, out.p, out.n); lnum(L, "xdec", rv.code);
         OP(c, "free");
         ASN_STRUCT_FREE(*td, st2);
-        if(out.n > 1 && out.n < 600 && !HAS_OPEN[ti]) {
+        if(out.n > 1 && out.n < 600) {
             size_t off = 0, step = 3; int guard = 0;
             st2 = 0;
             OP(c, "xer_decode(chunked)");
@@ -556,7 +565,7 @@ static NOINSTR void one_round(struct ctx *c, int ti) {
         }
 #endif
 #ifndef ASN_DISABLE_OER_SUPPORT
-        if(!HAS_NOOER[ti]) {
+        if(!HAS_NOOER[ti] && valid) {
             out.n = 0;
             OP(c, "oer_encode");
             er = oer_encode(td, st, cb_buf, &out); lnum(L, "oer", (long)er.encoded);
